@@ -419,6 +419,9 @@ func checkC01(p *Prog, r *Report) {
 	// ---- R1.11 transactions are scoped to the session ---------------------------------------------------
 	r.Rule("R1.11", "The table of outstanding transactions is emptied on every path of the Restart task and of the Failed transition (directly or through a helper): a success response can only validate a pair for a check sent in the current session.", 2)
 	checkPendingWipe(p, r)
+	// ---- R1.12 a restarted session gets a full checking period ---------------------------------------------------
+	r.Rule("R1.12", "The check tick records the connection state it leaves behind on every exit, so that a session restarted right after a failure re-arms its checking deadline instead of failing at once on the old one (table shared with C04 R4.5).", 6)
+	checkTickDiscipline(p, r)
 }
 
 func hasEq(vals map[string]string, name, c string) bool {
